@@ -129,6 +129,40 @@ def build(reg, src):
     for nm in ('kg_write_symbol', 'kg_write_integer', 'kg_write_float', 'kg_write_char', 'kg_write_string', 'kg_write_dict', 'kg_write_list'):
         reg.fns[W + nm].ghost_at_call = (lambda name: lambda eng, st, s, r: 'writer_called' in st.ghost and
                                          st.ghost.__setitem__('writer_called', VList(st.ghost['writer_called'].items + [name])))(nm)
+    # ---------------- read_list: the list IS the sequence of lexeme values between the brackets, in order - no value is re-interpreted
+    # (a string or character equal to "[" is a member, not a list opener)
+    SeqObjL = z3.SeqSort(Obj)
+
+    def rl_setup(eng, st):
+        st.env['module'] = VOpaque(hint='module')
+        st.ghost['lex'] = VSeq(z3.Empty(SeqObjL))
+
+    def lexeme(eng, st, s, r):
+        if 'lex' in st.ghost and isinstance(r, VTuple):
+            q = r.items[1]
+            qo = eng.as_obj(q)
+            isnone = q.pred('isnone').t if isinstance(q, VOpaque) else z3.BoolVal(isinstance(q, VNoneT))
+            cur = st.ghost['lex'].t
+            st.ghost['lex'] = VSeq(z3.If(isnone, cur, z3.Concat(cur, z3.Unit(qo))))
+    reg.fn(P + 'kg_read', verify=False, params=dict(t=Str, i=Int), returns=(Int, 'opaque'), ghost_at_call=lexeme,
+           ensures=[lambda s, r: r[0] >= s.i0])
+    reg.fn(P + 'skip', verify=False, params=dict(t=Str, i=Int), returns=Int, raises=[], ensures=[lambda s, r: r >= s.i0])
+
+    def rl_seq(v):
+        return z3.Empty(SeqObjL) if isinstance(v, VList) and not v.items else v.t
+
+    def rl_post(s, r):
+        if not s.has('arr'):
+            return VBool(True)               # at a call site (nested list): the nested call has its own lexeme sequence
+        if not isinstance(r, VTuple) or not isinstance(r.items[1], (VSeq, VList)):
+            return VBool(False)
+        return VBool(rl_seq(r.items[1]) == s.g('lex').t)
+    reg.fn(P + 'read_list', params=dict(t=Str, delim=Str, i=Int), setup=rl_setup, requires=[lambda s: s.i >= 0], returns=(Int, 'opaque'),
+           ensures=[rl_post, lambda s, r: r[0] >= 0],
+           loops={0: loop(invariant=[lambda s: VBool(rl_seq(s.arr) == s.g('lex').t), lambda s: s.i >= 0],
+                          havoc=dict(arr=lambda h: VSeq(z3.Const(fresh_name(h), SeqObjL)), q='opaque'),
+                          modifies=lambda eng, st: st.ghost.__setitem__('lex', VSeq(z3.Const(fresh_name('lex'), SeqObjL))))})
+
     reg.assumed_calls.update({'_backend.to_display': 'nonnull', 'is_integer': Bool, 'is_float': Bool, 'is_list': Bool})
     reg.pure_calls |= {'is_integer', 'is_float', 'is_list'}
 
@@ -137,6 +171,7 @@ def build(reg, src):
     from replay import c11 as rp
     reg.extra_checks.append(rp.check_spec_renderings)
     reg.extra_checks.append(rp.check_roundtrip_bounded)
+    reg.replays.append((r'read_list', rp.replay_lists))
     reg.replays.append((r'.', rp.replay_strings))
 
 
@@ -157,5 +192,15 @@ def configure(eng):
 
     def call_unknown(e, key, args, kwargs, st, node):
         return None
+
+    def method(e, o, m, args, kwargs, st, node):
+        if m == 'append' and len(args) == 1 and isinstance(o, (VSeq, VList)) and e.cur_key.endswith('::read_list'):
+            base = z3.Empty(z3.SeqSort(Obj)) if isinstance(o, VList) and not o.items else (o.t if isinstance(o, VSeq) else None)
+            if base is None:
+                return None
+            e.rebind(st, o, VSeq(z3.Concat(base, z3.Unit(e.as_obj(args[0])))))
+            return [(st, NONE)]
+        return None
+    eng.hooks['method'] = method
     # to_display returns its argument for non-tensor values (assumed): identity keeps the class facts of `a`
     eng.reg.externals['_backend.to_display'] = lambda e, st, a, k, n: [(st, a[0])]
